@@ -19,6 +19,9 @@ CHECKS["C16"] = {"technique": "abstract interpretation + polynomial normal forms
 CHECKS["C18"] = {"technique": "loop-carried def-use analysis, polynomial normal form of the blend coefficient / convex step, tagged-operator dataflow",
   "text": "Five structural necessary conditions only: PCGrad tests each conflict against the vector the same loop updates, visits every other row, uses one order per row and sums the projected vectors; GradDrop draws one uniform sample per column outside the row loop and its blend coefficient normalises to 1 / leak_i; Random = softmax over the rows of randn(m); CAGrad rejects c<0 and returns 1/m + (c-dependent factor)·w or exact zeros; MGDA starts uniform and takes convex steps. All numerical clauses are not decided.",
   "note": OPS + "; enumerated idioms — other code shapes give ANALYSIS-ERROR"}
+CHECKS["C19"] = {"technique": "typestate / constructor-reset agreement over the class's attribute stores, CFG path predicates (exactly-once, dominance, guarded-by), reaching definitions with kind inference",
+  "text": "Every attribute stored outside __init__ is restored by reset() with the constructor's expression or rebuilt under the 'fresh' guard; step advances exactly once per path after the schedule test; the optimiser runs exactly on scheduled calls and is the only writer of the reused weights; reused calls read no other cached state; the weights are a torch tensor on all paths into weights @ matrix. The max_norm bound and solver convergence are not decided.",
+  "note": "kinds inferred from construction forms (torch.* / np.* / .numpy()); cvxpy behaviour trusted"}
 NA_PENDING = "check not built yet in this commit (planned, see DESIGN.md section 5)"
 NOT_APPLICABLE = {
  "C04": "Non-conflict is a numerical inequality on the outputs of a QP, a Frank-Wolfe loop and a conic solver with input-dependent allowances; no clause of it is visible in the shape of the code.",
